@@ -325,6 +325,10 @@ func (m *Manager) newStream(ctx context.Context, sid uint64, kind, rpc string) (
 		return stream, nil
 
 	case <-m.sigs.term.Signal():
+		// the stream is already recorded as the latest stream, so the reader
+		// may deliver packets to it, but manageStreams will never see it:
+		// terminate it here so that nothing can park on it.
+		stream.Cancel(m.sigs.term.Err())
 		return nil, m.sigs.term.Err()
 	}
 }
